@@ -114,7 +114,7 @@ CheckTypes(C, X, js, i) ==
   ELSE LET j == js[i]  n == X.nodes[j]  nt == TypeNotationOf(n) IN
        IF nt \in {"jsight", "regex"} /\ n.b = "" THEN CErr(C, "bodyempty", j, "kw")
        ELSE IF nt = "jsight" /\ ~(BodyTab[n.b].uses \subseteq TypeDeclNames(X)) THEN CErr(C, "typenotfound", j, "body")
-       ELSE IF nt = "jsight" /\ ~(BodyTab[n.b].enums \subseteq EnumNames(C)) THEN CErr(C, "enumnotfound", j, "body")
+       ELSE IF nt = "jsight" /\ ~(BodyTab[n.b].enums \subseteq EnumNames(C)) THEN CErr(C, "enumnotfound", j, "body1")   \* the rule stands on the 2nd line of the pool body
        ELSE CheckTypes(C, X, js, i + 1)
 
 \* Path directives (collectPaths): annotation, parent, two in a row under the same parent
@@ -183,7 +183,7 @@ Carried(C, n) ==
   ELSE IF ty # "" /\ n.b = "" THEN
        LET s == RefSch(ty) IN [has |-> TRUE, fault |-> SchemaFault(C, s), where |-> "kw", sch |-> s, format |-> "json"]
   ELSE IF nt = "jsight" /\ n.b # "" THEN
-       LET s == BodySch(n.b) IN [has |-> TRUE, fault |-> SchemaFault(C, s), where |-> "body", sch |-> s, format |-> "json"]
+       LET s == BodySch(n.b) IN [has |-> TRUE, fault |-> SchemaFault(C, s), where |-> IF SchemaFault(C, s) = "enumnotfound" THEN "body1" ELSE "body", sch |-> s, format |-> "json"]
   ELSE IF nt = "regex" /\ n.b # "" THEN [has |-> TRUE, fault |-> "", where |-> "body", sch |-> PseudoSch("regex"), format |-> "plainString"]
   ELSE IF nt \in {"any", "empty"} /\ n.b = "" THEN [has |-> TRUE, fault |-> "", where |-> "kw", sch |-> PseudoSch(nt), format |-> "binary"]
   ELSE [has |-> FALSE, fault |-> "", where |-> "kw", sch |-> PseudoSch("any"), format |-> ""]
